@@ -123,7 +123,7 @@ func c11(c *Ctx) {
 		return
 	}
 	c11SizeBounds(c)
-	decK := c.P.Func("", "decryptWithKey")
+	decK := c.need("R-C11.4", "", "decryptWithKey")
 	decM := c.P.Func("", "DecryptMessage")
 	c11Siblings(c)
 
